@@ -11,7 +11,8 @@ CLAIMED = {
             'hands the scheduled event id / PTS / break duration to the encoder within the field widths; SCTE-35 encode then parse '
             'is the identity with a valid CRC-32 for SpliceTime, BreakDuration, SpliceInsert, the segmentation / time descriptor '
             'bodies and the whole splice_insert signal with one segmentation descriptor (section, command and descriptor-loop '
-            'lengths back-patched correctly), over a bit trace.',
+            'lengths back-patched correctly), over a bit trace; the emsg box itself (v0/v1, with and without payload) encodes and '
+            'parses back identically for all integer field values.',
             'Trusted: the pyvc VC generator and its Python-semantics encoding; z3/cvc5; EventMessageBox constructor modelled '
             'as a record of its keyword arguments; payload generation abstract; BitsFieldWriter/Reader (repository helpers over '
             'bitstring) modelled by a bit trace; crccheck assumed to satisfy the CRC residue property. Known findings: 8-bit avail '
@@ -45,10 +46,12 @@ CLAIMED['C13'] = (
     'DESIGN.md 4 C13',
     'Deductive proof that get_http_range agrees with an RFC 7233 spec function for every header shape and all integers: '
     'ValueError (400) iff the header is present and not a single byte-range-spec, 206 with exactly [first, min(last, N-1)] / '
-    'suffix clamp and matching Content-Range iff satisfiable, 416 with bytes */N otherwise, no other exception; plus the '
-    'consumer slicing lemma.',
+    'suffix clamp and matching Content-Range iff satisfiable, 416 with bytes */N otherwise, no other exception; '
+    'OnDemandMedia.get (with the real get_http_range inlined) returns exactly blob[first..last] with that Content-Range and the '
+    'Content-Type of the extension, an empty 416, or 400 when the header is absent or unusable; plus the consumer slicing lemma '
+    'for the media-segment handler.',
     'Trusted: pyvc encoding; opaque-string model of the header (predicates the code observes; int() of a split("-") part is '
-    'non-negative). Handler bodies that consume the tuple are covered by a lemma over the contract only.',
+    'non-negative); Blob.open_file and flask.make_response abstract. generate_media_segment consumes the tuple under a lemma only.',
     'contract-based deductive verification (AST->VC generator, z3 + cvc5), native replay by source extraction')
 
 CLAIMED['C19'] = (
@@ -77,14 +80,21 @@ CLAIMED['C01'] = (
     '$Time$/SegmentTimeline half: see evidence not_covered.',
     'contract-based deductive verification (AST->VC generator, z3 + cvc5), native replay (source extraction for handler methods)')
 CLAIMED['C06'] = (
-    'DESIGN.md 4 C06',
-    'Proof at the pure layer: VOD first/last numbers (sn, sn+n-1); VOD number/time -> stored segment map and the 404 (ValueError) '
+    'DESIGN.md 4 C06 / 0a',
+    'Proof: Representation.load (indexing) for every atom list made of ftyp, moov, moof, mdat, sidx, free: segment 0 starts at the '
+    'first box, every media segment starts on its moof and ends where the next begins (the segments tile the file exactly), '
+    'durations are the fragments\' sample-duration sums, start number / first decode time are those of the first fragment, '
+    'mediaDuration is their total, segment_duration the mean distance of fragment starts (>= 1), ZeroDivisionError iff that or '
+    'the total is zero; VOD first/last numbers (sn, sn+n-1); VOD number/time -> stored segment map and the 404 (ValueError) '
     'exactly outside sn..sn+n-1 in LiveMedia.calculate_media_segment_index (vod); generateSegmentList returns init = segment 0 and '
-    'media[k] = [pos(k+1), pos(k+1)+size(k+1)-1] for all n segments (loop invariant, termination); the VOD '
-    'SegmentTimeline lists consecutive stored segments from (0, segment 1) up to the reference duration (known finding '
-    'when the track and the reference differ in length).',
-    'Trusted: pyvc encoding. Representation.load, OnDemandMedia.get, templates and calculate_vod_params are not under contract yet '
-    '(evidence not_covered).',
+    'media[k] = [pos(k+1), pos(k+1)+size(k+1)-1] for all n segments; the VOD SegmentTimeline lists consecutive stored segments '
+    'from (0, segment 1) up to the reference duration; calculate_vod_params / DashTiming.__init__[vod]: static duration = '
+    'reference duration; OnDemandMedia.get returns exactly bytes first..last of the blob with 206, 416 with an empty body, '
+    '400 without a usable Range header.',
+    'Trusted: pyvc encoding; Mp4Atom.load (producer of the atom list), Representation.__init__ / process_moov, Blob.open_file and '
+    'flask.make_response are abstract (stated assumptions); sample loops summarised by their sum. Known findings: timeline length '
+    'when track and reference differ, single-fragment files (mediaDuration 0), top-level boxes other than the six listed. '
+    'Templates not covered.',
     'contract-based deductive verification (AST->VC generator, z3 + cvc5), native replay of counter-models')
 
 CLAIMED['C08'] = (
@@ -136,20 +146,23 @@ CLAIMED['C11'] = (
     'Reduced scope. Proof for all 16-byte key ids and all seed bytes: hex_to_le_guid is RFC 4122 bytes_le (raw and textual '
     'form), generate_content_key equals the published PlayReady key-seed algorithm (SHA-256 as an uninterpreted function of '
     'its input bytes, seed truncated to 30 bytes, length checks raise ValueError), generate_checksum is the first 8 bytes of '
-    'AES-ECB(key, bytes_le(kid)).',
-    'Trusted: byte-string model (bit-vector lists), SHA-256 / AES-ECB uninterpreted. Not covered: WRMHEADER XML and its '
+    'AES-ECB(key, bytes_le(kid)); the pssh box (system id, version-1 key-id list, data) encodes and parses back identically '
+    'for 0-3 key ids with and without data.',
+    'Trusted: byte-string model (bit-vector lists), SHA-256 / AES-ECB uninterpreted; byte trace for the pssh box. Not covered: WRMHEADER XML and its '
     're-parse, PRO framing, ClearKey endpoint, ContentProtection elements (see evidence not_covered).',
     'contract-based deductive verification (symbolic execution over fixed-length byte lists, z3), native replay')
 
 CLAIMED['C04'] = (
-    'DESIGN.md 4 C04',
-    'Reduced scope. Proof, per loop-free FullBox class (mfhd, mehd, trex, tfdt, tfhd) and for all field values legal for the '
-    'version/flags (tfhd: all 2^5 optional-field combinations as symbolic flag bits): every value written fits its field, '
-    'parsing the produced bytes returns exactly the written version, flags and fields and consumes them exactly; '
-    'TrackFragmentDecodeTimeBox switches to the 64-bit form exactly when the value needs it.',
-    'Trusted: byte-trace model of struct / FieldWriter / FieldReader (repository helpers, not verified themselves); box header '
-    'skipped via initial_data. Everything else in the statement (list-bearing boxes, headers, lazy mode, JSON, tree edits) '
-    'is not covered - see evidence not_covered.',
+    'DESIGN.md 4 C04 / 0a',
+    'Reduced scope. Proof, per box class (mfhd, mehd, trex, tfdt, tfhd with all 2^5 optional-field combinations, trun header, '
+    'tenc, mdhd incl. 1904-epoch dates and packed language, emsg v0/v1 with/without payload, pssh with 0-3 key ids, btrt, pasp) '
+    'and for all field values legal for the version/flags: every value written fits its field, parsing the produced bytes '
+    'returns exactly the written version, flags and fields and consumes them exactly, the encoded size is the specified one; '
+    'TrackFragmentDecodeTimeBox switches to the 64-bit form exactly when the value needs it. The repository\'s FieldWriter / '
+    'FieldReader are analysed as real code inside every one of these.',
+    'Trusted: byte-trace model of the stream and of struct.pack/unpack (stdlib); box header skipped via initial_data; strings in '
+    'emsg/mdhd are fixed representative texts (their codec runs concretely). Everything else in the statement (sample tables and '
+    'other list-bearing boxes, sample entries, descriptors, headers, lazy mode, JSON, tree edits) is not covered - see evidence not_covered.',
     'contract-based deductive verification (encode-then-parse symbolic execution over a byte trace, z3), native replay')
 
 CLAIMED['C03'] = (
